@@ -41,10 +41,10 @@ def main():
     logging.disable(logging.CRITICAL)
     core.enter_worker_dir()
 
+    t0 = time.time()
     try:
         core.bind_repo()
         mod = importlib.import_module(f"mc.props.{pid.lower()}")
-        t0 = time.time()
         if args.replay:
             rc = mod.replay(args.replay)
         else:
@@ -55,6 +55,15 @@ def main():
         print(f"HARNESS-ERROR property={pid}: {e}")
         return 2
     except Exception as e:  # noqa
+        d = None
+        try:
+            d = core.escaped_library_exception(e, f"running check {pid} in the main process")
+        except Exception:  # noqa
+            pass
+        if d is not None:
+            res = core.Result()
+            res.merge(d)
+            return core.finish(pid, args.tier, seed, res, time.time() - t0, "the check was cut short by an exception escaping from the library under check (see caps_hit)", [], exhaustive=False)
         print(f"HARNESS-ERROR property={pid}: {e!r}")
         traceback.print_exc()
         return 2
